@@ -1,0 +1,36 @@
+//go:build verif
+
+package cursor
+
+import "github.com/logrange/logrange/pkg/model"
+
+// VerifLeafOrder (verification harness, C16): journal names of the cursor's sources in the leaf order of
+// its mixer tree, i.e. the order in which Go's map iteration handed them to newCursor.
+func VerifLeafOrder(c Cursor) []string {
+	cur, ok := c.(*crsr)
+	if !ok {
+		return nil
+	}
+	it := cur.it
+	if f, ok := it.(*fiterator); ok {
+		it = f.it
+	}
+	var res []string
+	var walk func(it model.Iterator)
+	walk = func(it model.Iterator) {
+		if a, b, ok := model.VerifMixerChildren(it); ok {
+			walk(a)
+			walk(b)
+			return
+		}
+		if tags, ok := model.VerifLeafTags(it); ok {
+			for jn, jd := range cur.jDescs {
+				if jd.tags == tags {
+					res = append(res, jn)
+				}
+			}
+		}
+	}
+	walk(it)
+	return res
+}
